@@ -237,7 +237,7 @@ Branch(T, s, e) ==
 VarChoice(T, s, e) ==
   LET cur == Cur(s)
       bad == IF e.d # 0 THEN {}
-             ELSE IF e.dom + 1 \notin 1..NDom(T.P) THEN {"C04:branch-on-nothing"}
+             ELSE IF e.dom + 1 \notin 1..NDom(T.P) THEN {"C04:nothing-to-branch-on"}
              ELSE Failed(<< <<"C09:branch-on-instantiated", cur.box[e.dom + 1][1] < cur.box[e.dom + 1][2]>> >>)
   IN << s, bad >>
 
